@@ -169,7 +169,7 @@ def plain(x):
 
 
 RESERVED = ['keys', 'items', 'get', 'pop', 'update']
-PATHS = ['a', 'b', 'a.b', 'a.c', 'a.b.c', 'b.a', '.a.b', '.b.a.c', 'a.b..c', 'a..b', 'a.b.c..a', 'l[0].a', 'l[1].b', 'l[0]', 'm.l[1].a', 'l[a].b', 'l[m.i].a', 'l[m.j[m.i].k].a', 'l[m.j[0].k].b']
+PATHS = ['a', 'b', 'a.b', 'a.c', 'a.b.c', 'b.a', '.a.b', '.b.a.c', 'a.b..c', 'a..b', 'a.b.c..a', 'l[0].a', 'l[1].b', 'l[0]', 'l[1]', 'm.l[1].a', 'l[a].b', 'l[m.i].a', 'l[m.j[m.i].k].a', 'l[m.j[0].k].b']
 VALUES = [1, 'x', None, {'b': 2}, {'a': {'c': 3}}, {'b.c': 4}, []]
 
 
